@@ -75,7 +75,7 @@ static void loadFresh(History& h, Pool<A>& p, vh::Rng& g)
 template <class A>
 static void step(History& h, Pool<A>& p, vh::Rng& g, Pool<BDDTopDownTreeAut>* td)
 {
-	int op = static_cast<int>(g.below(11));
+	int op = static_cast<int>(g.below(13));
 	if (p.v.size() < 2 || op == 0) { loadFresh(h, p, g); return; }
 	size_t i = p.pick(g), j = p.pick(g); bool room = p.v.size() < 7;
 	Obs bi = h.observe(*p.v[i].a), bj = h.observe(*p.v[j].a);
@@ -128,6 +128,37 @@ static void step(History& h, Pool<A>& p, vh::Rng& g, Pool<BDDTopDownTreeAut>* td
 			case 8: if (room) { R->phase(e + " RemoveUnreachableStates"); h.trace += e + ":unreach" + vh::str(i) + ";"; j = i; bj = bi; un("unreach", p.v[i].a->RemoveUnreachableStates(), false); } break;
 			case 9: if (room) { R->phase(e + " RemoveUselessStates"); h.trace += e + ":useless" + vh::str(i) + ";"; j = i; bj = bi; un("useless", p.v[i].a->RemoveUselessStates(), true); } break;
 			case 10: if (g.chance(1, 2)) { p.v.erase(p.v.begin() + i); p.focus.clear(); h.trace += e + ":del" + vh::str(i) + ";"; } break;
+			case 12: if (p.v.size() + 2 <= 7)
+			{	// fork: two copies of one automaton (one shared table) get DIFFERENT extra final states, then are combined
+				auto d = parser().ParseString(p.v[i].a->DumpToString(serializer())); std::vector<std::string> names;
+				for (auto& t : d.transitions) { names.push_back(t.third); for (auto& c : t.first) names.push_back(c); }
+				if (names.size() < 2) break;
+				std::string n1 = names[g.below(names.size())], n2 = names[g.below(names.size())];
+				std::unique_ptr<A> c1(new A(*p.v[i].a)), c2(new A(*p.v[i].a));
+				R->phase(e + " fork: SetStateFinal on two copies"); c1->SetStateFinal(std::stoul(n1)); c2->SetStateFinal(std::stoul(n2));
+				h.trace += e + ":fork" + vh::str(i) + "(" + n1 + "," + n2 + ");"; R->count(e + ":fork");
+				Obs o1 = h.observe(*c1), o2 = h.observe(*c2);
+				RTA e1 = bi.a, e2 = bi.a; e1.fin.insert(h.ids.at(n1)); e2.fin.insert(h.ids.at(n2));
+				if (sameLang(e1, o1.a, h.al) == 0 || sameLang(e2, o2.a, h.al) == 0) { fail(h, p, "fork/setfinal-language", ""); break; }
+				R->phase(e + " fork: Intersection of the copies"); { A r = A::Intersection(*c1, *c2); Obs o = h.observe(r); if (rm::checkBin(o1.a, o2.a, o.a, h.al, false, 6000) == 0) fail(h, p, "fork/isect/language", "intersection of two copies with different final states"); }
+				if (!h.failed) { R->phase(e + " fork: Union of the copies"); A r = A::Union(*c1, *c2); Obs o = h.observe(r); if (rm::checkBin(o1.a, o2.a, o.a, h.al, true, 6000) == 0) fail(h, p, "fork/union/language", "union of two copies with different final states"); }
+				if (!h.failed) { Obs a1 = h.observe(*c1), a2 = h.observe(*c2), a0 = h.observe(*p.v[i].a); if (sameLang(o1.a, a1.a, h.al) == 0 || sameLang(o2.a, a2.a, h.al) == 0 || sameLang(bi.a, a0.a, h.al) == 0) fail(h, p, "fork/operand-language-changed", ""); }
+				Handle<A> x1; x1.a = std::move(c1); x1.family = p.v[i].family; Handle<A> x2; x2.a = std::move(c2); x2.family = p.v[i].family;
+				p.v.push_back(std::move(x1)); p.v.push_back(std::move(x2)); p.focus = {i, p.v.size() - 2, p.v.size() - 1};
+			} break;
+			case 11:
+			{	// SetStateFinal on one handle: final states are per object, also for automata sharing a table
+				auto d = parser().ParseString(p.v[i].a->DumpToString(serializer())); std::vector<std::string> names;
+				for (auto& t : d.transitions) { names.push_back(t.third); for (auto& c : t.first) names.push_back(c); }
+				if (names.empty()) break;
+				std::string nm = names[g.below(names.size())]; size_t st = std::stoul(nm);
+				std::vector<Obs> before; for (auto& x : p.v) before.push_back(h.observe(*x.a));
+				R->phase(e + " SetStateFinal"); p.v[i].a->SetStateFinal(st); h.trace += e + ":setfinal" + vh::str(i) + "(" + nm + ");"; R->count(e + ":setfinal");
+				RTA exp = bi.a; exp.fin.insert(h.ids.at(nm));
+				Obs ai = h.observe(*p.v[i].a); if (sameLang(exp, ai.a, h.al) == 0) fail(h, p, "setfinal/language", "language is not the one with the state added to the final set");
+				for (size_t k = 0; k < p.v.size() && !h.failed; ++k) if (k != i) { Obs ak = h.observe(*p.v[k].a); if (sameLang(before[k].a, ak.a, h.al) == 0) fail(h, p, "setfinal/other-handle-language-changed", "handle " + vh::str(k) + " (sharing the table or not) changed its language"); }
+				p.focus = {i};
+			} break;
 		}
 	}
 	catch (std::exception& ex) { fail(h, p, "exception", ex.what()); }
